@@ -59,6 +59,12 @@ CHECKS = {
         "ref": "DESIGN.md §3.8, §4 C07",
         "note": "Trusted: fv/cells.py (object-graph walk), fv/fresh.py (fork server), TLC. Outcomes are compared as digests of matrices rounded to 1e-10.",
     },
+    "C10": {
+        "technique": "TLA+ spec (Design.tla: levels frozen at training, zero rule, trailing group block, factor list; Lifecycle config discipline) model checked with TLC (UnseenTheorem) and replayed; recorded evaluations with unseen levels under mode sequences judged by TLC (Design_Trace unseen clause, Lifecycle_Trace config clause)",
+        "text": "TLC enumerates rows of every small-scope training frame with cells of the predictor f, the grouping variable g or both replaced by a never-seen level under the three modes, proves the zero rule / block-width rule on the Abs evaluation and exports the expected matrices, slices and factor lists; cases are replayed through evaluate_new_data with the configured mode (warnings matched by formulae's message). Random worlds x formulas with unseen levels placed in predictors, effect and grouping variables (str, ordered categorical, C(k), interaction factors), up to 3 evaluations per design with mode changes in between, are judged event by event by TLC. 28 assignments of documented and undocumented keys/values are judged against the config discipline.",
+        "ref": "DESIGN.md §3.7, §3.8, §4 C10",
+        "note": "Trusted: as C04. In 'error' mode an unseen level anywhere in the evaluated matrix must raise ValueError. Integer-valued data.",
+    },
 }
 
 NOT_YET = "check not built yet (work in progress; see DESIGN.md §9 build order)"
